@@ -31,7 +31,33 @@ def hankYsGram (j : Json) : Except String Json := do
   let G := Mat.mulT Ys Ys
   pure (matToJson ratToJson ⟨G.r, G.c, fun i k => G.e i k / (N : Rat)⟩)
 
+/-- `{"op":"hank_ys","Y":..,"Yref":..,"p":..}` → the stacked matrix `Ys = vstack((Yp, Yf))` of the data-driven
+    method with `s = 1` (the harness multiplies by the float `1/N**0.5`): the argument whose transpose the
+    real function hands to `np.linalg.qr`. -/
+def hankYsOp (j : Json) : Except String Json := do
+  let Y ← matOfJson (← field j "Y")
+  let Yr ← matOfJson (← field j "Yref")
+  let p ← natOfJson (← field j "p")
+  let Ys := hankYs Y Yr p 1
+  pure (Json.mkObj [("r", Json.num Ys.r), ("c", Json.num Ys.c), ("m", matToJson ratToJson Ys)])
+
+/-- `{"op":"hank_dat_rec","R":..,"nref":..,"p":..}` → `hankDat R nref p` (shape and entries): the block the
+    data-driven method returns for the RECORDED `np.linalg.qr(Ys.T, mode="r")` output `R` (any height).
+    `"of_r"` is `hankDatOfR R nref p` (the fixed-width variant the older theorems are about) when `R`
+    has at least `nref·(p+1)` rows, else `null`. -/
+def hankDatRecOp (j : Json) : Except String Json := do
+  let R ← matOfJson (← field j "R")
+  let nref ← natOfJson (← field j "nref")
+  let p ← natOfJson (← field j "p")
+  let H := hankDat R nref p
+  let H0 := hankDatOfR R nref p
+  let ofr := if nref * (p + 1) ≤ R.r then
+      Json.mkObj [("r", Json.num H0.r), ("c", Json.num H0.c), ("m", matToJson ratToJson H0)]
+    else Json.null
+  pure (Json.mkObj [("r", Json.num H.r), ("c", Json.num H.c), ("m", matToJson ratToJson H), ("of_r", ofr)])
+
 def ops : List (String × (Json → Except String Json)) :=
-  [("hank_mm", hankMMop), ("hank_R", hankRop), ("hank_ys_gram", hankYsGram)]
+  [("hank_mm", hankMMop), ("hank_R", hankRop), ("hank_ys_gram", hankYsGram),
+   ("hank_ys", hankYsOp), ("hank_dat_rec", hankDatRecOp)]
 
 end PV.Ops.C12
